@@ -310,15 +310,27 @@ def compare_nums(impl, model):
     return st, fails, mism
 
 
+def lq_adjacent(bits, v, r):
+    """quantiser bands (two's complement in `bits`): r is the band next to v towards zero"""
+    sv = v - (1 << bits) if v >> (bits - 1) else v
+    sr = r - (1 << bits) if r >> (bits - 1) else r
+    return abs(sv) - abs(sr) == 1 and (sv >= 0) == (sr >= 0 or sr == 0)
+
+
 def compare_uints(impl, model):
-    """VC lines (values built by ImportUint / ImportBytes+CastType).  The property is evaluated on the
-    implementation line against the *input* of the case (not against what the importer produced):
-    bytes, ExportUint64 and the decimal / hex / binary texts must denote the given value, and the
-    text must re-import to the same value, width and type.
+    """VC lines: values built by ImportUint (all Go widths, any optionalBits incl. the -1 / 0 sentinels),
+    by the simulator's show path `V show` = ImportUint(value, t.GetSize()) + CastType(t), and by
+    ImportBytes (+CastType).  The property is evaluated on the implementation line against the *input*
+    of the case (not against what the importer produced): type and width are the expected ones, bytes,
+    ExportUint64 and every exporter (ExportString of the type, ExportBinary(false/true),
+    ExportBinaryNBits(bits), ExportVerilogBinary) denote the given value at the given width, and every
+    text that is a literal (ExportString, ExportBinary(true), ShowPrefix+OmitPrefix text) re-imports to
+    the same value, width and type.
     -> stats, failures [(class, text, case, line)], mismatches [(case, impl, model)]"""
     il = [l for l in impl.splitlines() if l.startswith("VC ")]
-    ml = [l for l in model.splitlines() if l.startswith("VC ")]
-    st = {"cases": len(il), "by_entry": {}, "ge_2_32": 0, "byte_distinct": 0, "roundtrips_ok": 0, "distinct": set()}
+    ml = [l for l in model.splitlines() if l.startswith(("VC ", "VU "))]
+    st = {"cases": len(il), "by_entry": {}, "ge_2_32": 0, "byte_distinct": 0, "roundtrips_ok": 0, "cast_refused": 0,
+          "optional_bits": {"positive": 0, "zero": 0, "negative": 0}, "distinct": set()}
     fails, mism = [], []
     if model and len(il) != len(ml):
         mism.append(("-", "%d lines" % len(il), "%d lines" % len(ml)))
@@ -326,16 +338,31 @@ def compare_uints(impl, model):
         fs = l.split()
         case = "V " + " ".join(fs[1:5])
         f = kvs(fs[5:])
-        if model and i < len(ml) and ml[i] != l:
+        if model and i < len(ml) and not ml[i].startswith("VU ") and ml[i] != l:
             mism.append((case, l, ml[i]))
-        if "panic" in l or "imp=err" in l or "bad-case" in l:
-            fails.append(("import-entry-error", l[:300], case, l))
-            continue
+        textual = True          # the type's text form is known to the driver (integer-like types)
         if fs[1] == "uint":
             w, v, ob = int(fs[2]), int(fs[3]), int(fs[4])
             bits, ty, entry = (ob if ob > 0 else w), "unsigned", "ImportUint(uint%d)" % w
+            st["optional_bits"]["positive" if ob > 0 else "zero" if ob == 0 else "negative"] += 1
+        elif fs[1] == "show":
+            w, v, ty = int(fs[2]), int(fs[3]), fs[4]
+            size = int(f.get("size", "0"))
+            entry = "show:" + re.sub(r"[0-9]+", "N", ty)
+            st["optional_bits"]["positive" if size > 0 else "zero" if size == 0 else "negative"] += 1
+            if "imp=cast-err" in l:
+                if size in (-1, w):
+                    fails.append(("import-entry-error", "CastType refuses a %d-bit value for %s (size %d)" % (w, ty, size), case, l))
+                else:
+                    st["cast_refused"] += 1
+                continue
+            bits = size if size > 0 else w
+            textual = ty in PREFIX
         else:
             bits, v, ty, entry = int(fs[2]), int.from_bytes(unhex(fs[3]), "big"), fs[4], "ImportBytes+" + fs[4]
+        if "panic" in l or "imp=err" in l or "bad-case" in l or "imp=no-type" in l:
+            fails.append(("import-entry-error", l[:300], case, l))
+            continue
         st["by_entry"][entry] = st["by_entry"].get(entry, 0) + 1
         if v >= 1 << 32:
             st["ge_2_32"] += 1
@@ -356,17 +383,36 @@ def compare_uints(impl, model):
                 bad.append("ExportBinary = %s, expected %s" % (f.get("eb"), bin(v)[2:]))
         except ValueError:
             bad.append("ExportBinary = %s" % f.get("eb"))
+        if f.get("ebs") != "0b<%d>%s" % (bits, bin(v)[2:]):
+            bad.append("ExportBinary(true) = %s, expected 0b<%d>%s" % (f.get("ebs"), bits, bin(v)[2:]))
+        if v < 1 << bits:
+            digits = bin(v)[2:].rjust(bits, "0")
+            if f.get("vb") != "%d'b%s" % (bits, digits):
+                bad.append("ExportVerilogBinary = %s, expected %d'b%s" % (f.get("vb"), bits, digits))
+            if 1 <= bits <= 4096 and f.get("nb") != "%d:%s" % (bits, digits):
+                bad.append("ExportBinaryNBits(%d) = %s" % (bits, f.get("nb")))
+            if f.get("brt") != "ok:bin:%d:%s" % (bits, f.get("brt", "").rsplit(":", 1)[-1]) or \
+                    le_val(f.get("brt", "::-").rsplit(":", 1)[-1] if f.get("brt", "").startswith("ok:") else "-") != v:
+                bad.append("ImportString(ExportBinary(true) = %s) -> %s, expected bin, %d bits, same value" % (f.get("ebs"), f.get("brt"), bits))
         es = f.get("es", "")
-        want = {"unsigned": str(v), "hex": "0x<%d>%x" % (bits, v), "bin": "0b<%d>%s" % (bits, bin(v)[2:])}[ty]
-        if es != want:
-            bad.append("ExportString = %s, expected %s" % (es, want))
+        if textual:
+            sv = v - (1 << 64) if v >> 63 else v
+            want = {"unsigned": str(v), "hex": "0x<%d>%x" % (bits, v), "bin": "0b<%d>%s" % (bits, bin(v)[2:]), "signed": "0s%d" % sv}[ty]
+            if es != want:
+                bad.append("ExportString = %s, expected %s" % (es, want))
+        elif es == "!err":
+            bad.append("ExportString fails for a %s value" % ty)
         if bad:
             fails.append(("import-entry-value", "%s: %s" % (entry, "; ".join(bad)), case, l))
             continue
+        is_lq = ty.startswith("lqs")
         if f.get("rt") != "ok":
-            fails.append(("reimport-error", "ImportString(%s) fails" % es, case, l))
+            fails.append(("reimport-error", "%s: ImportString(%s) fails" % (case, es), case, l))
         elif f.get("rty") != ty or le_val(f.get("rbytes", "-")) != v:
-            fails.append(("roundtrip", "%s -> %s -> ty=%s bytes=%s" % (case, es, f.get("rty"), f.get("rbytes")), case, l))
+            if is_lq and f.get("rty") == ty and f.get("rbits") == str(bits) and lq_adjacent(bits, v, le_val(f.get("rbytes", "-"))):
+                fails.append((K_LQ, "%s -> %s -> bytes=%s" % (case, es, f.get("rbytes")), case, l))
+            else:
+                fails.append(("roundtrip", "%s -> %s -> ty=%s bytes=%s" % (case, es, f.get("rty"), f.get("rbytes")), case, l))
         elif f.get("rbits") != str(bits):
             if ty == "unsigned" and bits != 64 and f.get("rbits") == "64":
                 fails.append((K_UNSIGNED, "%s -> ExportString %s -> bits 64" % (case, es), case, l))
@@ -375,6 +421,9 @@ def compare_uints(impl, model):
         else:
             st["roundtrips_ok"] += 1
         for c, t in omit_eval(f, ty, bits, v, es, case):
+            if is_lq and f.get("ort") == "ok" and f.get("orty") == ty and f.get("orbits") == str(bits) and \
+                    lq_adjacent(bits, v, le_val(f.get("orbytes", "-"))):
+                c = K_LQ
             fails.append((c, t, case, l))
     return st, fails, mism
 
@@ -461,6 +510,8 @@ def report_classes(rep, fails, known_ids, mk_replay):
     for cls in sorted(by):
         xs = sorted(by[cls], key=lambda x: (len(x[1]), x[1]))
         if cls in known_ids:
+            if any(k.startswith(cls + ":") for k in rep.known_hits):
+                continue    # one line per listed finding, whichever generator met it first
             rep.known("%s: %s (%d cases this run, e.g. %s)" % (cls, K_TEXT.get(cls, cls), len(xs), xs[0][1][:160]))
         else:
             rep.violation(mk_replay(cls, xs[0], len(xs)))
@@ -595,13 +646,16 @@ def run(rep):
     # the other import entry points: ImportUint (4 widths), ImportBytes (+CastType), ExportUint64
     utexts = [harness(hbin, ["uintfile", f]) for f in corpus("uints")]
     utexts.append(harness(hbin, ["uints", str(4000 if thorough else 300)]))
-    ust = {"cases": 0, "by_entry": {}, "ge_2_32": 0, "byte_distinct": 0, "roundtrips_ok": 0}
+    ust = {"cases": 0, "by_entry": {}, "ge_2_32": 0, "byte_distinct": 0, "roundtrips_ok": 0, "cast_refused": 0,
+           "optional_bits": {"positive": 0, "zero": 0, "negative": 0}}
     udistinct, ufails, umism = set(), [], []
     for t in utexts:
         model = oracle(t) if oracle_ok else ""
         st, fails, mism = compare_uints(t, model)
-        for k in ("cases", "ge_2_32", "byte_distinct", "roundtrips_ok"):
+        for k in ("cases", "ge_2_32", "byte_distinct", "roundtrips_ok", "cast_refused"):
             ust[k] += st[k]
+        for k in ust["optional_bits"]:
+            ust["optional_bits"][k] += st["optional_bits"][k]
         for a, b in st["by_entry"].items():
             ust["by_entry"][a] = ust["by_entry"].get(a, 0) + b
         udistinct.update(st["distinct"])
